@@ -2,7 +2,7 @@
    run (anchor: per-key emission with omit_default comparison and by_alias branch): the statements they emit for a
    field, read by OptEmit.run_lines, mean what the model of the generated body (OptProj.guard / key_kw / emit_kw) says. *)
 From Coq Require Import List String ZArith Bool.
-From Verif Require Import PyK PyK_c08 OptProj OptEmit.
+From Verif Require Import PyK PyK_c08 OptProj OptEmit OptEmitField.
 From VerifGen Require Import K108a.
 Import ListNotations.
 Open Scope string_scope.
@@ -22,6 +22,29 @@ Theorem K108a_emit_kw : forall (c: sctx) (p: fplan) (raw pk: pv), nullable p = f
             run_lines 4 l (env_of c p raw (pval p (raw, pk))) = emit_kw c (p, (raw, pk)).
 Proof. exact K108a_emit_kw_lemma. Qed.
 Print Assumptions K108a_emit_kw.
+
+(* the per-field body of the `kwargs = {}` loop of _add_pack_method_lines (anchor: builder.py 891-985), translated: for
+   EVERY static context, every field plan (nullable or not, trivial packer or not, any default) and both values of
+   force_value, what the loop body emits for the field means exactly the model's emit_kw -- the `if value is not None:` /
+   `else:` / `if not omit_none:` shapes of a nullable field included *)
+Theorem K108a_field : forall (c: sctx) (p: fplan) (raw pk: pv) (force_value: bool),
+  exists l, field_emitted c p force_value = Ok l /\
+            run_lines 8 l (env_of c p raw (pval p (raw, pk))) = emit_kw c (p, (raw, pk)).
+Proof. exact K108a_field_lemma. Qed.
+Print Assumptions K108a_field.
+
+(* non-vacuity: Optional[date] field (non-trivial packer), omit_none keyword feature: None is stored iff omit_none=False
+   at run time; a value is stored packed *)
+Definition ex_ctx2 (ron: bool) : sctx :=
+  {| s_on := false; s_od := false; s_ba := false; s_fon := true; s_fba := false; r_on := ron; r_ba := false |}.
+Definition ex_opt : fplan :=
+  {| p_name := "d"; p_alias := None; p_ty := TyOptional; p_trivial := false; p_default := DNo; p_omit := false |}.
+Example K108a_field_example :
+  forall l, field_emitted (ex_ctx2 true) ex_opt false = Ok l ->
+    run_lines 8 l (env_of (ex_ctx2 true) ex_opt PNone PNone) = Some [] /\
+    run_lines 8 l (env_of (ex_ctx2 false) ex_opt PNone PNone) = Some [("d", PNone)] /\
+    run_lines 8 l (env_of (ex_ctx2 true) ex_opt (POpq 1) (PStr "2020-01-01")) = Some [("d", PStr "2020-01-01")].
+Proof. intros l' H'; vm_compute in H'; injection H' as <-; repeat split; reflexivity. Qed.
 
 (* non-vacuity: by_alias feature with by_alias=True at run time stores under the alias; omit_default with the value
    equal to the default stores nothing, with another value it stores under the name; a NaN default is matched by NaN only *)
